@@ -84,6 +84,9 @@ func runScriptCtx(parent context.Context, sv SolverCfg, file string, perQueryMs 
 // is reported as a failure (solver disagreement).
 var crossCheck = false
 
+// knownObls: obligations listed as known findings are expected to fail; they get a short time limit
+var knownObls = map[string]bool{}
+
 type SolveStats struct {
 	Confirmed int
 	Disagree  int
@@ -260,6 +263,9 @@ func solvePath(ps *PathScript, workDir string, perQueryMs int, onlySolver string
 				ms := perQueryMs
 				if o.Kind == "cover" {
 					ms = 2000
+				}
+				if knownObls[o.Name] && ms > 3000 {
+					ms = 3000
 				}
 				res, secs, err := runScriptCtx(ctx, sv, file, ms, 1)
 				r, ok := res[o.Seq]
